@@ -38,7 +38,7 @@ TSTART = 58123.456789012345
 
 
 def REQUIRED(tier):
-    return [f"api:{a}" for a in APIS] + ["tstart_checks", "label_checks", "shape_checks", "foff>0", "start>0", "regime:crosses_utc_midnight", "regime:remainder_longer_than_output", "ts_to_dat:odd_length", "regime:block_padded_in_front", "regime:block_padded_behind"]
+    return [f"api:{a}" for a in APIS] + ["tstart_checks", "label_checks", "shape_checks", "foff>0", "start>0", "regime:crosses_utc_midnight", "regime:remainder_longer_than_output", "ts_to_dat:odd_length", "regime:block_padded_in_front", "regime:block_padded_behind", "regime:channels_arriving_before_the_first", "probe:channel_window_one_past_the_band"]
 
 
 def cases(tier, seed):
@@ -219,6 +219,14 @@ def run_case(case, ctx):
             fk = float(fil.header.chan_freqs[k]) if rng.random() < 0.5 else _freq(fch1, foff, k)
             case = dict(case, k=k, m=m, fk=fk); ck.case = case
             nontriv = True
+            if case["pseed"] % 4 == 1:
+                # a window that overruns the band by exactly one channel: refused, or at least described by a header that matches the rows returned
+                ctx.count("probe:channel_window_one_past_the_band")
+                try:
+                    bo = fil.read_block(start, nsamps, fch1=fk, nchans=nch - k + 1)
+                    ck.shape(bo.header, bo.data.shape[1], bo.data.shape[0])
+                except ValueError:
+                    pass
             b = fil.read_block(start, nsamps, fch1=fk, nchans=m)
             t, c = _decode(b.data)
             ck.shape(b.header, b.data.shape[1], b.data.shape[0])
@@ -230,11 +238,19 @@ def run_case(case, ctx):
             ck.tstart(b.header, int(t[0, 0]), reg)
         elif api == "read_dedisp_block":
             dm = float(rng.uniform(0, 3)) if foff < 0 else 0.0
+            if case["pseed"] % 3 == 0:
+                # channels that arrive before the first one (negative trial DM, or a band stored in ascending order): the block's clock is still
+                # that of its first channel at sample `start`
+                dm = -float(rng.uniform(0.2, 3)) if foff < 0 else float(rng.uniform(0.2, 3))
             delays = np.asarray(fil.header.get_dmdelays(dm)).reshape(-1)
-            n2 = max(1, min(nsamps, N - start - int(delays.max()) - 1))
-            if delays.min() < 0 or n2 < 2:
+            if delays.min() < 0:
+                start = max(start, int(-delays.min()))
+                ctx.count("regime:channels_arriving_before_the_first")
+            n2 = max(1, min(nsamps, N - start - max(0, int(delays.max())) - 1))
+            if n2 < 2:
                 ctx.skip("read_dedisp_block out of range"); return
-            case = dict(case, dm=dm); ck.case = case
+            reg = "start>0" if start > 0 else "start=0"
+            case = dict(case, dm=dm, start=start); ck.case = case
             b = fil.read_dedisp_block(start, n2, dm)
             ck.shape(b.header, b.data.shape[1], b.data.shape[0])
             ck.tstart(b.header, start, reg)
